@@ -7,6 +7,15 @@ DIR=${1:-/repo}
 OUT=${2:-/verif/.work/baseline.gotest.json}
 mkdir -p "$(dirname "$OUT")"
 export GOFLAGS=-mod=mod GOPROXY=off
+# the suite writes files next to its packages (amhist.db ...): /repo itself is
+# never used as the run directory, its working tree is copied to a scratch
+# directory outside /repo and /verif, which is removed afterwards
+if [ "$(realpath "$DIR")" = "/repo" ]; then
+  SCR=$(mktemp -d /tmp/amc-baseline.XXXXXX)
+  trap 'rm -rf "$SCR"' EXIT
+  rsync -a --exclude .git /repo/ "$SCR/"
+  DIR=$SCR
+fi
 cd "$DIR" || exit 2
 go test -mod=mod -json -vet=off -count=1 -timeout 25m ./... > "$OUT" 2>"$OUT.stderr"
 python3 - "$OUT" <<'PY'
